@@ -153,7 +153,16 @@ def obs_sphp(case):
     return {"kind": "sphp", "N": N, "sp": int(sp), "hp": int(hp)}
 
 
-OBSERVERS = {"int": obs_int, "dec": obs_dec, "opaque": obs_opaque, "nom": obs_nom, "ck": obs_ck, "time": obs_time, "bits": obs_bits,
+def obs_sphp2(case):
+    """val = M tenths of a high-precision unit (M * 1e-10 with scale 1e-7), M % 10 != 5: no rounding tie"""
+    from pyubx2 import val2sphp
+
+    M = case["M"]
+    sp, hp = val2sphp(M * 1e-10, 1e-7)
+    return {"kind": "sphp2", "M": M, "sp": int(sp), "hp": int(hp)}
+
+
+OBSERVERS = {"sphp2": obs_sphp2, "int": obs_int, "dec": obs_dec, "opaque": obs_opaque, "nom": obs_nom, "ck": obs_ck, "time": obs_time, "bits": obs_bits,
              "att": obs_att, "sphp": obs_sphp}
 
 
